@@ -94,6 +94,9 @@ def _register_all():
     spis("spi.slave(dw=4,half=5,skew=1)", "quick", dw=4, half=5, skew=1)
     spis("spi.slave(dw=4,half=4,loopback)", "quick", dw=4, half=4, loopback=1)
     spis("spi.slave(dw=8,half=4)", "thorough", dw=8, half=4, nwords=4)
+    # shared bus: between its own transfers the slave sees clock pulses and MOSI data addressed to another slave (cs_n high)
+    spis("spi.slave(dw=4,half=3)+foreign_traffic", "quick", dw=4, half=3, foreign=2)
+    spis("spi.slave(dw=4,half=4,loopback)+foreign_traffic", "thorough", dw=4, half=4, loopback=1, foreign=3)
     # -- I2C master ---------------------------------------------------------------------------------
     from checks import c19_i2c as I
     for load in (0, 1, 2):
